@@ -53,14 +53,16 @@ CHECKS = {
         "quick": [
             {"pkg": "lib", "entries": ["VerifC18Patch"], "params": {"N": 2, "KEYS": 3}},
             {"pkg": "lib", "entries": ["VerifC18Merge"], "params": {"D": 0, "EMPTYOBJ": 1}},
+            {"pkg": "lib", "entries": ["VerifC18Patch"], "params": {"N": 2, "LONG": 1}},
         ],
         "thorough": [
             {"pkg": "lib", "entries": ["VerifC18Patch"], "params": {"N": 3, "KEYS": 6}},
             {"pkg": "lib", "entries": ["VerifC18Merge"], "params": {"D": 1, "EMPTYOBJ": 1, "ROOTS": 1}},
             {"pkg": "lib", "entries": ["VerifC18Merge"], "params": {"D": 0, "EMPTYOBJ": 1, "INNER": 2}},
+            {"pkg": "lib", "entries": ["VerifC18Patch"], "params": {"N": 3, "LONG": 1}},
         ],
         "covers": ["c18.patch", "c18.merge"],
-        "outside": "keys beyond {0, 10, a/b, m~n, k, a, b, c}; arrays longer than N; text-level encoding (codec axioms)",
+        "outside": "keys beyond {0, 10, a/b, m~n, k, a, b, c}; arrays longer than N symbolic elements (plus a fixed common prefix of 7..10 elements in the LONG family); text-level encoding (codec axioms)",
     },
     "C10": {
         "quick": [
@@ -70,6 +72,7 @@ CHECKS = {
             {"pkg": "v2", "entries": ["VerifC10Ops"], "params": {"OPS": 3, "N": 2, "MAXIDX": 3}},
             {"pkg": "v2", "entries": ["VerifC10Ops"], "params": {"OPS": 2, "N": 2, "MAXIDX": 3, "SPELL": 1}},
             {"pkg": "v2", "entries": ["VerifC10ObjOps"], "params": {"OPS": 2}},
+            {"pkg": "v2", "entries": ["VerifC09Long"], "params": {"N": 2}},
         ],
         "thorough": [
             {"pkg": "v2", "entries": ["VerifC10Own"], "params": {"N": 3, "FAMS": 1}},
@@ -79,8 +82,8 @@ CHECKS = {
             {"pkg": "v2", "entries": ["VerifC10Ops"], "params": {"OPS": 3, "N": 2, "MAXIDX": 3, "SPELL": 1}},
             {"pkg": "v2", "entries": ["VerifC10ObjOps"], "params": {"OPS": 3}},
         ],
-        "covers": ["c10.own", "c10.ops.applied", "c10.ops.rejected", "c10.objops.applied", "c10.objops.notapplied"],
-        "outside": "more than OPS operations; indices above MAXIDX; index spellings other than canonical, 0-prefixed, signed; object-member operations beyond the paths /k, /m/k, /a~1b, /q/k, /m and the root (own-output leg covers keys a/b, m~n, empty, e-acute); replace/move/copy (outside jd's subset: rejected by the reader)",
+        "covers": ["c10.own", "c10.ops.applied", "c10.ops.rejected", "c10.objops.applied", "c10.objops.notapplied", "c09.long"],
+        "outside": "more than OPS operations; indices above MAXIDX; index spellings other than canonical, 0-prefixed, signed; object-member operations beyond the paths /k, /m/k, /a~1b, /q/k, /m and the root (own-output leg covers keys a/b, m~n, empty, e-acute); replace/move/copy (outside jd's subset: rejected by the reader); operations lacking the value member (malformed per RFC 6902 section 4, not a JSON Patch document: jd reads a missing value as null)",
     },
     "C09": {
         "quick": [
@@ -88,14 +91,16 @@ CHECKS = {
             {"pkg": "v2", "entries": ["VerifC09Render"], "params": {"N": 3, "M": 2, "FAMS": 1}},
             {"pkg": "v2", "entries": ["VerifC09Render"], "params": {"N": 2, "M": 3, "FAMS": 1}},
             {"pkg": "v2", "entries": ["VerifC09Refuse"], "params": {}},
+            {"pkg": "v2", "entries": ["VerifC09Long"], "params": {"N": 3}},
         ],
         "thorough": [
+            {"pkg": "v2", "entries": ["VerifC09Long"], "params": {"N": 3}},
             {"pkg": "v2", "entries": ["VerifC09Render"], "params": {"N": 3, "FAMS": 1}},
             {"pkg": "v2", "entries": ["VerifC09Render"], "params": {"N": 2, "KEYS": 6}},
             {"pkg": "v2", "entries": ["VerifC09Refuse"], "params": {}},
         ],
-        "covers": ["c09.render", "c09.refuse"],
-        "outside": "keys beyond the alphabet {a/b, m~n, empty, e-acute, k}; arrays longer than N; set-mode diffs (refused); text-level encoding of values (codec axioms)",
+        "covers": ["c09.render", "c09.refuse", "c09.long"],
+        "outside": "keys beyond the alphabet {a/b, m~n, empty, e-acute, k}; arrays longer than N symbolic elements (plus a fixed common prefix of 7..10 elements in the Long family: indices up to 12); set-mode diffs (refused); text-level encoding of values (codec axioms)",
     },
     "C02": {
         "quick": [
